@@ -142,7 +142,13 @@ def text_line(name, ops, aq=None, rl=None):
 
 
 def explore(ctx, names, prop):
-    """prop in {'C01', 'C02', 'C06'}: which verdicts are raised as counterexamples."""
+    """prop in {'C01', 'C02', 'C06'}: which verdicts are raised as counterexamples.  One mnemonic at a time: the thorough tier
+    enumerates tens of millions of operand tuples, and nothing in the verdicts crosses mnemonics."""
+    for name in names:
+        explore_names(ctx, [name], prop)
+
+
+def explore_names(ctx, names, prop):
     asm = harness.real_asm()
     wide = not ctx.quick()
     compressed = lambda n: n.startswith('c.')
